@@ -93,6 +93,8 @@ class ImgGen {
       emit(0x3, r.chance(1, 2) ? (uint32_t)r.below(256) : anyValue());
       emit(0x8, 2);
     }
+    if (sys == 3) { static const uint32_t bad[] = {3, 3, 4, 255, 256, 0x7FFFFFFF, 0x80000000u, 0xFFFFFFFFu, 0xFFFFFF00u, 0x80000001u}; emit(0x3, bad[r.below(10)]); }   // an undefined call number, small or huge
+    else
     emit(0x3, sys);                     // LDAC syscall number
     if (r.chance(1, 10)) byte(0xE, 0);  // a redundant PFIX 0 in front of the OPR
     byte(0xD, 3);                       // OPR SVC
